@@ -586,7 +586,12 @@ func (s *WeatherDataShared) transformWeatherData(yrz int, corr corrArr) {
 	for y := 0; y < yrz; y++ {
 		T := s.MaxYearDays[y]
 		for index := 0; index < T; index++ {
-			cor := corr.getCorrValue(index + 1)
+			// the monthly factors are looked up by the day of a 365-day year: skip 29 February in leap years
+			dayOfYear := index + 1
+			if s.JAR[y]%4 == 0 && dayOfYear > 59 {
+				dayOfYear--
+			}
+			cor := corr.getCorrValue(dayOfYear)
 			// water model for rivers calculates in cm, so mm is transformed to cm by dividing by 10
 
 			// correction of precipitation (turn on/off in config)
